@@ -35,6 +35,41 @@ def C(v):
 
 
 UNSUPPORTED = []     # statement kinds met by any interpreter of this process that it cannot model
+# Library callees the engine (or a rule) has a summary of - DESIGN A.4.  Everything the unchanged
+# tree calls is here (collected by running every check with the two hooks below instrumented);
+# a call of anything else makes the run it occurs in "not decided" where it fails (E.8).
+KNOWN_EXTERNALS = {
+    "builtins.all", "builtins.any", "builtins.abs", "builtins.bool", "builtins.dict",
+    "builtins.enumerate", "builtins.eval", "builtins.float", "builtins.format", "builtins.frozenset",
+    "builtins.getattr", "builtins.hasattr", "builtins.int", "builtins.isinstance", "builtins.iter",
+    "builtins.len", "builtins.list", "builtins.max", "builtins.min", "builtins.print",
+    "builtins.range", "builtins.repr", "builtins.reversed", "builtins.set", "builtins.slice",
+    "builtins.sorted", "builtins.str", "builtins.sum", "builtins.tuple", "builtins.type",
+    "builtins.zip", "builtins.hash", "builtins.id", "builtins.super", "builtins.object",
+    "gymnasium.spaces.Box", "gymnasium.spaces.Discrete", "gymnasium.spaces.MultiDiscrete",
+    "math.ceil", "math.floor", "math.isclose", "math.inf", "builtins.round",
+    # quantising functions: C15.probs knows what they do to a uniform draw
+    "numpy.round", "numpy.around", "numpy.floor", "numpy.trunc", "numpy.rint", "numpy.fix",
+    "numpy.copy", "numpy.zeros", "numpy.ones", "numpy.full", "numpy.array", "numpy.asarray",
+    "numpy.array_equal", "numpy.float32", "numpy.int64", "numpy.int32", "numpy.bool_",
+}
+KNOWN_METHODS = {
+    "add", "append", "argmax", "copy", "extend", "flatten", "get", "insert", "items", "join", "keys",
+    "lower", "upper", "numpy", "numpy_flat", "remove", "reshape", "shape", "shape_flat", "values",
+    "setdefault", "update", "pop", "popitem", "discard", "clear", "sort", "reverse", "index",
+    "count", "strip", "split", "format", "startswith", "endswith", "tolist", "item",
+}
+
+
+def known_external(fname):
+    if fname in KNOWN_EXTERNALS or fname.startswith("numpy.random.") or fname.startswith("random."):
+        return True
+    if fname.startswith("builtins.") and (fname.endswith("Error") or fname.endswith("Exception")
+                                          or fname.endswith("Warning")):
+        return True                      # exception constructors
+    return False
+
+
 OPAQUE = []          # (function, what, location): constructs whose effect the engine treats as unknown
                      # (unsupported statements, calls of values it cannot resolve to code, unknown
                      # expression kinds) - met by any interpreter of this process
@@ -288,6 +323,14 @@ class Interp:
                     self._assign(it.optional_vars, v, st, act, s)
             return self._block(s.body, st, act)
         if isinstance(s, ast.Try):
+            eafp = self._desugar_eafp(s)
+            if eafp is not None:
+                return self._block([eafp], st, act)
+            if any(not (h.body and isinstance(h.body[-1], ast.Raise)) for h in s.handlers):
+                # a handler that lets execution continue: what the statement leaves behind depends
+                # on where the exception was raised - not modelled (only the look-up idiom above is)
+                self._opaque(act, "try/except whose handler continues", f"{act.fi.module.path}:"
+                             f"{s.lineno}")
             pre = st.fork()
             st_body = self._block(s.body, st, act)
             outs = [st_body] if st_body is not None else []
@@ -490,6 +533,38 @@ class Interp:
                     return ("tuple", (i, k))
                 return new_it, build
         return it, None
+
+    @staticmethod
+    def _desugar_eafp(s):
+        """`try: <one statement reading D[k]> except KeyError: H [else: E]`  is
+        `if k in D: <statement>; E  else: H`  when the statement contains exactly one subscript
+        load, of a plain name / attribute chain with a call-free key, and no call at all (nothing
+        else in it can raise KeyError); None for every other try statement"""
+        if len(s.handlers) != 1 or s.finalbody or len(s.body) != 1:
+            return None
+        h = s.handlers[0]
+        if not (isinstance(h.type, ast.Name) and h.type.id == "KeyError") or h.name:
+            return None
+        st0 = s.body[0]
+        if not isinstance(st0, (ast.Assign, ast.Return, ast.AugAssign, ast.Expr)):
+            return None
+        subs = [n for n in ast.walk(st0) if isinstance(n, ast.Subscript)
+                and isinstance(n.ctx, ast.Load)]
+        if len(subs) != 1 or any(isinstance(n, (ast.Call, ast.Await, ast.Yield, ast.YieldFrom))
+                                 for n in ast.walk(st0)):
+            return None
+        sub = subs[0]
+        base = sub.value
+        while isinstance(base, ast.Attribute):
+            base = base.value
+        if not isinstance(base, ast.Name) or isinstance(sub.slice, ast.Slice):
+            return None
+        test = ast.Compare(left=sub.slice, ops=[ast.In()], comparators=[sub.value])
+        new = ast.If(test=test, body=[st0] + list(s.orelse), orelse=list(h.body))
+        ast.copy_location(new, s)
+        ast.copy_location(test, s)
+        ast.fix_missing_locations(new)
+        return new
 
     def _empty_literal(self, t):
         if t[0] == "mcall" and t[2] in ("items", "keys", "values") and not t[3] and not t[4]:
@@ -879,6 +954,13 @@ class Interp:
         if e.id in ("True", "False", "None"):
             return C({"True": True, "False": False, "None": None}[e.id])
         r = self.repo.resolve_name(act.fi.module, e.id)
+        if r is not None and r[0] == "assign" and isinstance(r[2], ast.Call):
+            # a module-level name bound to the result of a library call without a summary
+            # (`_TYPES = ChainMap(A, B)`, `_failed = functools.partial(...)`): unknown value
+            callee = self.repo.resolve_attr_chain(r[1], r[2].func)
+            if callee is not None and callee[0] == "ext" and not known_external(callee[1]):
+                self._opaque(act, f"module-level {e.id} = {callee[1]}(...) (no summary in the "
+                             "engine)", f"{act.fi.module.path}:{getattr(e, 'lineno', 0)}")
         return self._resolved_to_term(r, act.fi.module, e, e.id)
 
     def _resolved_to_term(self, r, module, e, text):
@@ -1021,11 +1103,32 @@ class Interp:
             return self._under(st.ov[(base, ("key", idx[1]))], st.pc)
         return self._getitem(base, idx)
 
+    def _table_lookup(self, base, key):
+        """entry of a literal table (dict without dynamic stores) for a literal key - a constant,
+        or a class when the table is keyed by classes: (True, value) / (False, None) when the key
+        is absent / None when not decidable"""
+        if base[0] != "dictobj":
+            return None
+        h = self.heap[base[1]]
+        if h["dyn"]:
+            return None
+        if is_const(key):
+            try:
+                return (True, h["items"][key[1]]) if key[1] in h["items"] else (False, None)
+            except TypeError:
+                return None
+        if key[0] == "classref" and h["items"] and all(isinstance(k_, ClassRef)
+                                                       for k_ in h["items"]):
+            for k_, v in h["items"].items():
+                if k_.ci.name == key[1]:
+                    return True, v
+            return False, None
+        return None
+
     def _getitem(self, base, idx):
-        if base[0] == "dictobj" and is_const(idx):
-            h = self.heap[base[1]]
-            if idx[1] in h["items"] and not h["dyn"]:
-                return h["items"][idx[1]]
+        hit = self._table_lookup(base, idx)
+        if hit is not None and hit[0]:
+            return hit[1]
         if base[0] in ("tuple", "list") and is_const(idx) and isinstance(idx[1], int) \
                 and -len(base[1]) <= idx[1] < len(base[1]):
             return base[1][idx[1]]
@@ -1163,6 +1266,23 @@ class Interp:
             h = self.heap[b[1]]
             if not h["dyn"]:
                 return C((a[1] in h["items"]) == (op == "in"))
+        if op in ("in", "notin") and a[0] == "classref":
+            # membership of a class in a literal collection of classes, however it is wrapped
+            # (tuple / list / set display, frozenset(...) / set(...) of one, keys of a literal table)
+            coll = b
+            while coll[0] == "call" and coll[1] in ("builtins.frozenset", "builtins.set",
+                                                    "builtins.tuple", "builtins.list") \
+                    and len(coll[2]) == 1 and not coll[3]:
+                coll = coll[2][0]
+            if coll[0] in ("tuple", "list", "setlit") and all(x[0] == "classref" for x in coll[1]):
+                return C((a in coll[1]) == (op == "in"))
+            if is_const(coll) and isinstance(coll[1], (frozenset, tuple)) and coll[1] \
+                    and all(isinstance(k_, ClassRef) for k_ in coll[1]):
+                return C((a[1] in {k_.ci.name for k_ in coll[1]}) == (op == "in"))
+            if coll[0] == "dictobj" and not self.heap[coll[1]]["dyn"]:
+                keys = list(self.heap[coll[1]]["items"])
+                if all(isinstance(k_, ClassRef) for k_ in keys):
+                    return C((a[1] in {k_.ci.name for k_ in keys}) == (op == "in"))
         return ("cmp", op, a, b)
 
     def _e_IfExp(self, e, st, act):
@@ -1589,6 +1709,11 @@ class Interp:
 
     def _opaque_call(self, fname, args, kwargs, star, dstar, st, act, e):
         kws = tuple(sorted(kwargs.items()))
+        if not known_external(fname):
+            # a library function the engine has no summary of: whatever is derived from its result
+            # (and from the interpreter run it occurs in) is not a verdict
+            self._opaque(act, f"call of {fname} (no summary in the engine)",
+                         f"{act.fi.module.path}:{getattr(e, 'lineno', 0)}")
         site = None
         if fname.startswith("numpy.random.") or fname.startswith("random.") \
                 or fname in self.FRESH_EXT or fname.split(".")[0] in ("time", "uuid", "secrets",
@@ -1673,6 +1798,9 @@ class Interp:
 
     def _opaque_mcall(self, recv, name, args, kwargs, st, act, e):
         kws = tuple(sorted(kwargs.items()))
+        if name not in KNOWN_METHODS:
+            self._opaque(act, f"method .{name}() of a library / untyped object (no summary in the "
+                         "engine)", f"{act.fi.module.path}:{getattr(e, 'lineno', 0)}")
         t = ("mcall", recv, name, tuple(args), kws)
         if recv[0] == "listobj" and name in ("append", "insert", "extend"):
             h = self.heap[recv[1]]
@@ -1717,12 +1845,10 @@ class Interp:
             self._emit("mcall", st, e, act, recv=recv, name=name, args=tuple(args), kwargs=kws,
                        result=t)
             return ("phi", ("cmp", "in", args[0], recv), ("sub", recv, args[0]), CONST_NONE)
-        if recv[0] == "dictobj" and name == "get" and args and is_const(args[0]):
-            h = self.heap[recv[1]]
-            if not h["dyn"]:
-                if args[0][1] in h["items"]:
-                    return h["items"][args[0][1]]
-                return args[1] if len(args) > 1 else CONST_NONE
+        if recv[0] == "dictobj" and name == "get" and args:
+            hit = self._table_lookup(recv, args[0])
+            if hit is not None:
+                return hit[1] if hit[0] else (args[1] if len(args) > 1 else CONST_NONE)
         self._emit("mcall", st, e, act, recv=recv, name=name, args=tuple(args), kwargs=kws,
                    result=t)
         return t
